@@ -170,3 +170,61 @@ func replaySchedules(c *lib.Ctx, raw json.RawMessage) string {
 	}
 	return f
 }
+
+// phaseSubSecond places login attempts inside the last second of a block
+// period (and just after it): the BFS moves the clock in whole seconds, so the
+// instants with less than one second of the block left are covered here, for
+// every throttling configuration.  Stateless enumeration.
+func phaseSubSecond(c *lib.Ctx) {
+	type sub struct {
+		Phase   string  `json:"phase"`
+		Max     uint    `json:"max_attempts"`
+		BlockS  int     `json:"block_s"`
+		OffsetS float64 `json:"attempt_offset_from_block_end_s"`
+		Right   bool    `json:"right_password"`
+	}
+	seq := 0
+	for _, max := range []uint{1, 2, 3} {
+		for _, block := range []time.Duration{2 * time.Minute, 15 * time.Minute} {
+			for _, off := range []time.Duration{-1500 * time.Millisecond, -999 * time.Millisecond, -500 * time.Millisecond, -time.Millisecond, time.Millisecond, 1500 * time.Millisecond} {
+				for _, right := range []bool{true, false} {
+					seq++
+					if !c.Mine(seq) {
+						continue
+					}
+					dir := filepath.Join(c.TmpDir, fmt.Sprintf("c12b-%d", seq))
+					_ = os.MkdirAll(dir, 0o755)
+					start := time.Date(2024, 6, 5, 10, 0, 0, 0, time.UTC)
+					vtime.SetVirtual(start)
+					if err := home.VerifC12Init(dir, max, block, 3600); err != nil {
+						panic(err)
+					}
+					for i := uint(0); i < max; i++ {
+						home.VerifC12Login("192.0.2.1:1000", home.VerifC12User, "wrong", nil)
+					}
+					// The block period starts with the last failure.
+					vtime.SetVirtual(start.Add(block + off))
+					pass := "wrong"
+					if right {
+						pass = home.VerifC12Password
+					}
+					st, _, hasRA, cookie := home.VerifC12Login("192.0.2.1:1001", home.VerifC12User, pass, nil)
+					c.Count("subsecond_attempts", 1)
+					c.Distinct("nontrivial", fmt.Sprint("subsecond|", max, block, off, right))
+					cs := sub{"subsecond", max, int(block / time.Second), off.Seconds(), right}
+					switch {
+					case off < 0 && (st != 429 || !hasRA || cookie != ""):
+						c.Violation("subsecond:not-blocked-inside-block-period", fmt.Sprintf("%d failed logins, then a login (right password: %v) %.3f s before the end of the %s block period: HTTP %d, Retry-After present=%v, session created=%v; must be 429 with Retry-After and no session", max, right, -off.Seconds(), block, st, hasRA, cookie != ""), cs)
+					case off > 0 && st == 429:
+						c.Violation("subsecond:blocked-after-block-period", fmt.Sprintf("login %.3f s after the end of the %s block period is still answered 429", off.Seconds(), block), cs)
+					case off > 0 && right && (st != 200 || cookie == ""):
+						c.Violation("subsecond:right-password-refused-after-block-period", fmt.Sprintf("right password %.3f s after the block period: HTTP %d", off.Seconds(), st), cs)
+					}
+					home.VerifC12Close()
+					vtime.SetVirtual(time.Time{})
+					_ = os.RemoveAll(dir)
+				}
+			}
+		}
+	}
+}
